@@ -14,6 +14,7 @@ import (
 	"net/http"
 	"net/url"
 	"strings"
+	"time"
 
 	"github.com/beevik/etree"
 	dsig "github.com/russellhaering/goxmldsig"
@@ -133,8 +134,31 @@ func Run(dir, tier string, seed int64) error {
 		run.Fail(coqgen.Failure{ID: id, Class: class, What: what, Input: in})
 	}
 
+	// the configuration dimensions that do not move routes: organisation / contact person (plain, with XML metacharacters and
+	// separators, non-ASCII), encryption algorithm, validity / caching / error URL
+	type extras struct {
+		org, contact string
+		enc, meta    bool
+	}
+	extraOf := func(k int) extras {
+		return []extras{{}, {org: "Example Org", contact: "Jane Doe"}, {org: "Smith & Sons <Ltd> \"q\"", contact: "O'Brien, Jane <jane@example.com>; +41 44,,12"}, {enc: true, meta: true},
+			{org: "Zürich ☃ AG", contact: "Ünal, Émile", enc: true, meta: true}}[k%5]
+	}
+	extra := extras{}
 	mkEnv := func(ic issuerCfg, c conf, want string, insecureOK bool) (*idp.Env, error) {
 		pc := idp.DefaultConf()
+		if extra.org != "" {
+			pc.Organisation = &provider.Organisation{Name: extra.org, DisplayName: extra.org + " (display)", URL: "https://org.example/?a=1&b=" + extra.org}
+		}
+		if extra.contact != "" {
+			pc.ContactPerson = &provider.ContactPerson{ContactType: "technical", Company: extra.contact + " co", GivenName: extra.contact + " gn", SurName: extra.contact + " sn", EmailAddress: extra.contact + " mail", TelephoneNumber: extra.contact + " tel"}
+		}
+		if extra.enc {
+			pc.IDPConfig.EncryptionAlgorithm = "http://www.w3.org/2001/04/xmlenc#aes256-cbc"
+		}
+		if extra.meta {
+			pc.IDPConfig.MetadataIDPConfig = &provider.MetadataIDPConfig{ValidUntil: 48 * time.Hour, CacheDuration: "PT1H", ErrorURL: "https://idp.example/error?a=1&b=2"}
+		}
 		pc.Metadata = c.meta.endpoint()
 		pc.IDPConfig.WantAuthRequestsSigned = want
 		pc.IDPConfig.Endpoints = &provider.EndpointConfig{Certificate: c.cert.endpoint(), Callback: c.callback.endpoint(), SingleSignOn: c.sso.endpoint(), SingleLogOut: c.slo.endpoint(), Attribute: c.attr.endpoint()}
@@ -230,11 +254,15 @@ func Run(dir, tier string, seed int64) error {
 		if ci < len(issuers) {
 			c = conf{} // every issuer kind with the default configuration first
 		}
+		extra = extraOf(ci)
 		env, err := mkEnv(ic, c, "", false)
+		extra = extras{}
 		if err != nil {
 			run.Note("configuration %v / %s refused: %v", c, ic.name, err)
 			continue
 		}
+		ex := extraOf(ci)
+		run.Count(fmt.Sprintf("extras=org:%v,contact:%v,enc:%v,meta:%v", ex.org != "", ex.contact != "", ex.enc, ex.meta))
 		eff := c.eff()
 		distinct := map[string]bool{"/healthz": true, "/ready": true}
 		noDup := true
@@ -286,6 +314,42 @@ func Run(dir, tier string, seed int64) error {
 			continue
 		}
 		entity := rep.Doc.AttrOr("entityID", "")
+		// what was configured must be what a generic parser reads back, element for element
+		{
+			texts := map[string][]string{}
+			rep.Doc.Walk(func(n *idp.Node) {
+				switch n.Local {
+				case "OrganizationName", "OrganizationDisplayName", "OrganizationURL", "Company", "GivenName", "SurName", "EmailAddress", "TelephoneNumber":
+					if len(n.Children) > 0 {
+						texts[n.Local] = append(texts[n.Local], "<has child elements>")
+					} else {
+						texts[n.Local] = append(texts[n.Local], n.Text)
+					}
+				}
+			})
+			wantTexts := map[string]string{}
+			if ex.org != "" {
+				wantTexts["OrganizationName"], wantTexts["OrganizationDisplayName"], wantTexts["OrganizationURL"] = ex.org, ex.org+" (display)", "https://org.example/?a=1&b="+ex.org
+			}
+			if ex.contact != "" {
+				wantTexts["Company"], wantTexts["GivenName"], wantTexts["SurName"], wantTexts["EmailAddress"], wantTexts["TelephoneNumber"] = ex.contact+" co", ex.contact+" gn", ex.contact+" sn", ex.contact+" mail", ex.contact+" tel"
+			}
+			for name, got := range texts {
+				w, configured := wantTexts[name]
+				for _, g := range got {
+					if !configured || g != w {
+						fail("configured-text-not-published-verbatim", fmt.Sprintf("<%s> reads %q, configured %q (configured: %v)", name, g, w, configured), desc)
+						break
+					}
+				}
+			}
+			for name, w := range wantTexts {
+				// once per role descriptor
+				if len(texts[name]) != 2 {
+					fail("configured-text-not-published-verbatim", fmt.Sprintf("<%s> occurs %d times (texts %q), want once in each of the two role descriptors with %q", name, len(texts[name]), texts[name], w), desc)
+				}
+			}
+		}
 		var locs []string
 		type adv struct {
 			svc int
